@@ -85,6 +85,14 @@ var configs = map[string]propCfg{
 		Thorough:   tierCfg{BudgetS: 900, Chunk: 120, MaxRuns: 5000000},
 		Assume:     assumeAll, Real: realAll, Stub: stubAll,
 	},
+	"C11": {
+		Level:      "exploration",
+		Rule:       "Seeded raw-engine scripts by 1-3 clients interleaved by the scheduler on memkv, Badger and the TiKV mock cluster, each also behind the metrics wrapper: batches of 1-4 operations (put, put-if-absent, compare-and-swap with right and wrong expectations, delete, compare-and-delete through an open iterator; conditions on missing keys; several conditions per batch; on Badger/TiKV optionally kept open across other clients' commits), Get, Del, DelCurrent, forward/backward/limited iterators with bounds on, between and outside keys that stay open across other clients' commits. A sorted-map model runs in lock-step; the final full scan must equal the model.",
+		NonTrivial: "the run contained both an applied batch and a batch refused for a failed condition.",
+		Quick:      tierCfg{BudgetS: 35, Chunk: 150, MaxRuns: 400000},
+		Thorough:   tierCfg{BudgetS: 600, Chunk: 150, MaxRuns: 5000000},
+		Assume:     assumeAll, Real: []string{"pkg/storage/memkv", "pkg/storage/badger (Badger v1.6.2 on tmpfs)", "pkg/storage/tikv over the client-go mock TiKV cluster", "pkg/storage/metrics wrapper"}, Stub: []string{"goroutine scheduling: seeded token scheduler", "clock: synctest fake clock", "no node code runs in this property: clients are raw engine users"},
+	},
 }
 
 // expectedProbes lists the reach probes whose absence is reported as a coverage gap.
@@ -97,5 +105,6 @@ var expectedProbes = map[string][]string{
 	"C07": {"compaction-deleted-records", "compaction-delete-failed", "skip-after-failure-engaged", "compactor-crashed", "second-compaction", "compare-and-delete-lost-to-concurrent-write"},
 	"C08": {"read-below-accepted-floor", "older-compaction-after-newer"},
 	"C09": {"retry-rewrote", "retry-ran", "convergence-compared", "repair-write-itself-uncertain-applied", "repair-write-itself-uncertain-lost", "unknown-outcome-delete-uncertain-applied", "unknown-outcome-create-uncertain-lost"},
+	"C11": {"batch-applied", "batch-condition-failed", "backward-iteration", "iterator-read-past-concurrent-write", "compare-and-delete-applied", "compare-and-delete-refused", "batch-open-across-steps"},
 	"C03": {"read-at-historical-revision", "limit-cut-result", "compaction-before-reread"},
 }
